@@ -123,6 +123,7 @@ type negServer struct {
 	mu      sync.Mutex
 	seen    []string
 	variant int
+	pings   int // white-space keepalives received INSIDE the TLS session
 	// after is called (if set) after the reply to a client element was written; conn is the current (possibly TLS) connection
 	after func(kind string, conn net.Conn)
 }
@@ -239,6 +240,11 @@ func (sv *negServer) serve(conn net.Conn) {
 		}
 		se, ok := tok.(xml.StartElement)
 		if !ok {
+			if cd, ok := tok.(xml.CharData); ok && secure && bytes.Contains(cd, []byte("\n")) {
+				sv.mu.Lock()
+				sv.pings += bytes.Count(cd, []byte("\n"))
+				sv.mu.Unlock()
+			}
 			if ee, ok := tok.(xml.EndElement); ok && ee.Name.Local == "stream" {
 				w("</stream:stream>")
 				return
@@ -542,6 +548,67 @@ func wsConn(insecure bool) string {
 	mu.Lock()
 	defer mu.Unlock()
 	return "out=" + out + " w=" + strings.Join(seen, ",")
+}
+
+// tlsKeepalive: a client negotiates STARTTLS with a verified certificate, then the real keepalive runs on its
+// transport for a while: the white space has to arrive INSIDE the TLS session (a keepalive written to the raw socket
+// is clear text under an encrypted stream: the server's TLS layer rejects it and drops the healthy session).
+func tlsKeepalive(intervalMs, ticks int) string {
+	ln, err := net.Listen("tcp", "127.0.0.1:0")
+	if err != nil {
+		return "listen-failed"
+	}
+	defer ln.Close()
+	sv := &negServer{m: happy(true, false, false)}
+	srvDone := make(chan struct{})
+	go func() {
+		defer close(srvDone)
+		c, err := ln.Accept()
+		if err != nil {
+			return
+		}
+		sv.serve(c)
+	}()
+	cfg := &xmpp.Config{
+		TransportConfiguration: xmpp.TransportConfiguration{Address: ln.Addr().String(), Domain: "localhost"},
+		Jid:                    "test@localhost/res", Credential: xmpp.Password("secret"),
+	}
+	client, err := xmpp.NewClient(cfg, xmpp.NewRouter(), func(error) {})
+	if err != nil {
+		return "newclient-failed"
+	}
+	xt := xmpp.NewClientTransport(xmpp.TransportConfiguration{Address: ln.Addr().String(), Domain: "localhost",
+		TLSConfig: &tls.Config{RootCAs: getPKI().pool}}).(*xmpp.XMPPTransport)
+	xmpp.VerifSetTransport(client, xt)
+	if err := xmpp.VerifClientConnect(client); err != nil {
+		return "connect-failed"
+	}
+	quit := make(chan struct{})
+	kdone := make(chan struct{})
+	go func() {
+		defer close(kdone)
+		xmpp.VerifKeepalive(xt, time.Duration(intervalMs)*time.Millisecond, quit)
+	}()
+	time.Sleep(time.Duration(intervalMs*ticks+intervalMs/2) * time.Millisecond)
+	srvAlive := true
+	select {
+	case <-srvDone:
+		srvAlive = false // the server gave the stream up while the session was supposed to be healthy
+	default:
+	}
+	close(quit)
+	select {
+	case <-kdone:
+	case <-time.After(2 * time.Second):
+	}
+	xt.Close()
+	select {
+	case <-srvDone:
+	case <-time.After(2 * time.Second):
+	}
+	sv.mu.Lock()
+	defer sv.mu.Unlock()
+	return fmt.Sprintf("tlspings=%d srvalive=%v secure=%v ticks=%d", sv.pings, srvAlive, xt.IsSecure(), ticks)
 }
 
 func (np negProp) Exec(c Case) []string {
